@@ -170,6 +170,12 @@ def build_jobs(chk: Check, thorough: bool, rng) -> List[Dict[str, Any]]:
                   "title-twice": ['FILE "image.bin" BINARY\n', "  TRACK 01 AUDIO\n", t1, "    INDEX 01 00:00:00\n", "  TRACK 02 AUDIO\n", t1, "    INDEX 01 00:00:02\n"],
                   "title-pair": ['FILE "image.bin" BINARY\n', "  TRACK 01 AUDIO\n", f'    TITLE "A{run_}B L"\n', "    INDEX 01 00:00:00\n",
                                  "  TRACK 02 AUDIO\n", f'    TITLE "A{run_}B R"\n', "    INDEX 01 00:00:02\n"],
+                  # the same side-lettered title on two tracks (a counted name is derived from a name that ends in L), and L, L, R
+                  "title-L-twice": ['FILE "image.bin" BINARY\n', "  TRACK 01 AUDIO\n", f'    TITLE "A{run_}B L"\n', "    INDEX 01 00:00:00\n",
+                                    "  TRACK 02 AUDIO\n", f'    TITLE "A{run_}B L"\n', "    INDEX 01 00:00:02\n"],
+                  "title-LLR": ['FILE "image.bin" BINARY\n', "  TRACK 01 AUDIO\n", f'    TITLE "A{run_}BL"\n', "    INDEX 01 00:00:00\n",
+                                "  TRACK 02 AUDIO\n", f'    TITLE "A{run_}BL"\n', "    INDEX 01 00:00:02\n",
+                                "  TRACK 03 AUDIO\n", f'    TITLE "A{run_}BR"\n', "    INDEX 01 00:00:04\n"],
                   "file": [f'FILE "{run_}" BINARY\n', "  TRACK 01 AUDIO\n", "    INDEX 01 00:00:00\n"],
                   # a quote that is never closed (a cut-off line): 60 kB and 40 characters
                   "title-open": ['FILE "image.bin" BINARY\n', "  TRACK 01 AUDIO\n", f'    TITLE "A{run_}B\n', "    INDEX 01 00:00:00\n"],
